@@ -812,7 +812,7 @@ Counter(cfg, S) ==
 F_C14_counters(cfg, pre, post) ==
     LET newExit == (Len(pre.exit) + 1)..Len(post.exit)
         completedNow == {a \in newExit : LET l == LastOf(pre, post, post.exit[a])
-                                          IN l.type = "service" /\ l.dest = EXIT}
+                                          IN l.type \in {"service", "interrupted service"} /\ l.dest = EXIT}
         newAccepted == {post.steps[a].i : a \in {b \in IdxOf(post, "accept") : post.steps[b].i > pre.created}}
     IN Chk("C14.counters-are-true",
            post.completed - pre.completed = Cardinality(completedNow)
